@@ -15,6 +15,7 @@ import (
 	configapi "github.com/onosproject/onos-api/go/onos/config/v2"
 	topoapi "github.com/onosproject/onos-api/go/onos/topo"
 	connctl "github.com/onosproject/onos-config/pkg/controller/connection"
+	tgtctl "github.com/onosproject/onos-config/pkg/controller/target"
 	ctlutils "github.com/onosproject/onos-config/pkg/controller/utils"
 	cfgctl "github.com/onosproject/onos-config/pkg/controller/v2/configuration"
 	mstctl "github.com/onosproject/onos-config/pkg/controller/v2/mastership"
@@ -401,6 +402,7 @@ func (w *World) startIncarnation(opts Options) error {
 	if !opts.NoControllers {
 		inc.ctls = []*controller.Controller{
 			connctl.NewController(topo, inc.Conns),
+			tgtctl.NewController(topo, inc.Conns),
 			mstctl.NewController(topo, inc.Cfgs),
 			cfgctl.NewController(topo, inc.Conns, inc.Cfgs),
 			propctl.NewController(topo, inc.Conns, inc.Props, inc.Cfgs, w.Registry),
